@@ -4,6 +4,7 @@
 # the other checks listed in meta.json caught_by). Prints one line per (change, check).
 export GOFLAGS=-mod=mod GOPROXY=off GOSUMDB=off GOTOOLCHAIN=local
 cd /verif
+seed=${VERIF_SEED:-1}; export VERIF_SEED=$seed
 ids=${@:-$(ls seeded | grep -v '\.md$')}
 for id in $ids; do
   d=seeded/$id
